@@ -19,7 +19,9 @@ MATH_ENV_NAMES = (
     'gather*', 'math', 'multline', 'multline*', 'split'
 )
 SPECIAL_COMMANDS = {'newcommand', 'renewcommand', 'providecommand',
-                    'newcommand*', 'renewcommand*', 'providecommand*'}
+                    'newcommand*', 'renewcommand*', 'providecommand*',
+                    'newenvironment', 'renewenvironment',
+                    'newenvironment*', 'renewenvironment*'}
 BRACKETS_DELIMITERS = {
     '(', ')', '<', '>', '[', ']', '{', '}', r'\{', r'\}', '.', '|', r'\langle',
     r'\rangle', r'\lfloor', r'\rfloor', r'\lceil', r'\rceil', r'\ulcorner',
